@@ -14,20 +14,25 @@ LEAN_TARGETS = ["Asynkit.Props.C17", "Asynkit.Lemmas.GenEq", "Asynkit.Lemmas.Gen
 PROPS_FILES = ["Asynkit/Props/C17.lean", "Asynkit/Lemmas/GenEq.lean", "Asynkit/Lemmas/GenEqPQ.lean", "Asynkit/Lemmas/GenEqPosPQ.lean"]
 DRIVERS = ["PQ"]
 TRUSTED = [
-    "Lean 4.33 kernel; axioms ⊆ {propext, Classical.choice, Quot.sound} (audited per theorem each run)",
-    "hand-written models Asynkit/Model/{Heap,PQ,PosPQ}.lean, tied to src/asynkit/tools.py and "
-    "experimental/priority.py by the differential correspondence of this run (lean/Drivers/PQ.lean)",
-    "translator/py2lean.py for PriEntry.__lt__ / PriorityValue.__lt__ (Gen definitions proved equal to the model's)",
-    "translator/pq2lean.py + Asynkit/Model/PyRt.lean: every method of tools.PriorityQueue is re-translated "
-    "statement by statement on each run and proved equal to Model/PQ.lean (Lemmas/GenEqPQ.lean), so for "
-    "that class the hand-written model is no longer trusted, only the translator's reading of Python "
-    "(lists, for/break/else, heapq calls, aliasing by index; callables and == on objects are pure)",
-    "translator/pospq2lean.py re-translates every method of PosPriorityQueue from the source on each run "
-    "(Gen/PosPQ.lean, over the PQ model's operations); Lemmas/GenEqPosPQ.lean proves each equal to Model/PosPQ "
-    "(trusted: the statement-level translator, the self._pq.<m> -> PQ.<m> binding, by-value PriorityValue objects)",
-    "CPython heapq meets its documented contract (HeapLib.Lawful); the executable model transcribes "
-    "heapq's sift loops and is compared array-for-array with the real _pq (layout statistic)",
-    "list.sort is a stable sort by __lt__",
+    'Lean 4.33 kernel; axioms ⊆ {propext, Classical.choice, Quot.sound} (audited per theorem each run)',
+    "hand-written: Asynkit/Model/Heap.lean (heapq's sift loops as the executable HeapLib) and the reference "
+    'specifications the refinement theorems relate the classes to; Model/{PQ,PosPQ}.lean are no longer trusted as'
+    ' transcriptions (next two entries) but are still run against the code by the differential correspondence of '
+    'this run (lean/Drivers/PQ.lean)',
+    'translated, not trusted: PriEntry.__lt__ (translator/py2lean.py -> Gen/PriEntry.lean; Lemmas/GenEq.lean, 1 '
+    'theorem); PriorityValue.priority/__lt__ are part of the PosPriorityQueue unit below',
+    'translated, not trusted: every method of tools.PriorityQueue, statement by statement on each run '
+    '(translator/pq2lean.py -> Gen/PQ.lean), proved equal to Model/PQ.lean for every heap library, comparison and'
+    " state (Lemmas/GenEqPQ.lean, 29 theorems); trusted there: Model/PyRt.lean's reading of Python (lists with "
+    'negative indices, for/break/else, list.sort stable, heapq calls, aliasing by index; callables and == on '
+    'objects are pure)',
+    'translated, not trusted: every method of PosPriorityQueue and PriorityValue on each run '
+    "(translator/pospq2lean.py -> Gen/PosPQ.lean, over the PQ model's operations), proved equal to "
+    'Model/PosPQ.lean (Lemmas/GenEqPosPQ.lean, 41 theorems); trusted there: Model/PosPQRt.lean (the self._pq.<m> '
+    '-> PQ.<m> binding, PriorityValue objects by value, fuel-bounded while loops shown never to run out)',
+    "CPython heapq meets its documented contract (HeapLib.Lawful); the executable model transcribes heapq's sift "
+    'loops and is compared array-for-array with the real _pq (layout statistic)',
+    'list.sort is a stable sort by __lt__',
 ]
 ASSUMPTIONS = [
     "objects stored in a queue are distinguishable (duplicates only in the model-vs-code stream)",
